@@ -410,6 +410,60 @@ def _budget_model(chk: Check) -> bool:
     return True
 
 
+async def _zero_budget_iteration(kind: str, buffered: bool) -> list[str]:
+    """The asynchronous iterators with a zero (or just exhausted) budget: what has already arrived is handed out, without waiting; with
+    nothing there the iteration ends at once.  kind: "udp" (datagrams queued in the endpoint) | "tcp" (packets already in the client's
+    own buffer: one read brought several)."""
+    import socket
+
+    from easynetwork.lowlevel.api_async.backend._asyncio.backend import AsyncIOBackend
+    from easynetwork.protocol import BufferedStreamProtocol, DatagramProtocol, StreamProtocol
+    from easynetwork.serializers.line import StringLineSerializer
+
+    backend = AsyncIOBackend()
+    loop = asyncio.get_running_loop()
+    problems: list[str] = []
+    if kind == "udp":
+        from easynetwork.clients.async_udp import AsyncUDPNetworkClient
+
+        a, b = harness.loopback_udp_pair()
+        client: Any = AsyncUDPNetworkClient(a, DatagramProtocol(StringLineSerializer()), backend=backend)
+        await client.wait_connected()
+        for p in ("A", "B", "C"):
+            b.send(p.encode())
+        want = ["A", "B", "C"]
+    else:
+        from easynetwork.clients.async_tcp import AsyncTCPNetworkClient
+
+        a, b = harness.loopback_tcp_pair()
+        client = AsyncTCPNetworkClient(a, (BufferedStreamProtocol if buffered else StreamProtocol)(StringLineSerializer()), backend=backend)
+        await client.wait_connected()
+        b.sendall(b"first\nA\nB\nC\n")
+        want = ["A", "B", "C"]
+    try:
+        for _ in range(20):
+            await asyncio.sleep(0.001)  # everything has reached the client's side of the loop
+        if kind == "tcp":
+            with backend.timeout(5):
+                if await client.recv_packet() != "first":
+                    problems.append("unexpected first packet")
+        t0 = loop.time()
+        got = [p async for p in client.iter_received_packets(timeout=0)]
+        if got != want:
+            problems.append(f"iter_received_packets(timeout=0) yielded {got}; {want} had already arrived")
+        if loop.time() - t0 > 0.2:
+            problems.append(f"iter_received_packets(timeout=0) took {loop.time() - t0:.2f}s")
+        t0 = loop.time()
+        got2 = [p async for p in client.iter_received_packets(timeout=0)]
+        if got2 or loop.time() - t0 > 0.2:
+            problems.append(f"with nothing left, iter_received_packets(timeout=0) yielded {got2} after {loop.time() - t0:.2f}s")
+    finally:
+        await client.aclose()
+        a.close()
+        b.close()
+    return problems
+
+
 def run(chk: Check) -> None:
     quick = chk.tier == "quick"
     rng = random.Random(chk.seed)
@@ -421,6 +475,16 @@ def run(chk: Check) -> None:
     ok = c03_recv_endpoint.model(chk, quick) and _budget_model(chk)
     if not ok:
         return
+    for kind, buffered in (("udp", False), ("tcp", False), ("tcp", True)):
+        problems = asyncio.run(_zero_budget_iteration(kind, buffered))
+        chk.traces += 1
+        chk.distinct.add(("zero_budget_iteration", kind, buffered))
+        if problems:
+            chk.violation(
+                {"kind": "zero_budget_iteration", "client": kind},
+                f"asynchronous {'UDP' if kind == 'udp' else 'TCP'} client{' (buffered path)' if buffered else ''}: {problems}",
+                {"kind": "zero_budget_iteration", "client": kind, "buffered": buffered},
+            )
     # (a) endpoint receive loop
     rec = []
     for i in range(800 if quick else 10000):
